@@ -685,6 +685,56 @@ func sliceElemsBuiltFrom(P *Program, lit ssa.Value, fld string, typ *ssa.Paramet
 			} else {
 				continue
 			}
+			// the slice may be grown by append: each appended element is a store into append's argument array, and
+			// what is appended to (through the loop's phi) is the same slice
+			if st, isSt := rr.(*ssa.Store); isSt && st.Addr == ssa.Value(fa) {
+				seenV := map[ssa.Value]bool{}
+				var walkApp func(v ssa.Value, d int) bool
+				walkApp = func(v ssa.Value, d int) bool {
+					if seenV[v] || d > 8 {
+						return true
+					}
+					seenV[v] = true
+					switch x := v.(type) {
+					case *ssa.Phi:
+						for _, e := range x.Edges {
+							if !walkApp(e, d+1) {
+								return false
+							}
+						}
+					case *ssa.Call:
+						bi, isB := x.Call.Value.(*ssa.Builtin)
+						if !isB || bi.Name() != "append" || len(x.Call.Args) != 2 {
+							return true
+						}
+						if !walkApp(x.Call.Args[0], d+1) {
+							return false
+						}
+						if sl, isSl := x.Call.Args[1].(*ssa.Slice); isSl {
+							if arr, isA := sl.X.(*ssa.Alloc); isA {
+								for _, ra := range referrersOf(arr) {
+									ia, isIA := ra.(*ssa.IndexAddr)
+									if !isIA {
+										continue
+									}
+									for _, r4 := range referrersOf(ia) {
+										if st4, ok := r4.(*ssa.Store); ok && st4.Addr == ssa.Value(ia) {
+											n++
+											if _, ta, ok := builtFrom(P, st4.Val); !ok || ta != ssa.Value(typ) {
+												return false
+											}
+										}
+									}
+								}
+							}
+						}
+					}
+					return true
+				}
+				if !walkApp(st.Val, 0) {
+					return false, "an element appended to ." + fld + " is not built from the same Go type"
+				}
+			}
 			for _, r3 := range referrersOf(ld) {
 				ia, ok := r3.(*ssa.IndexAddr)
 				if !ok {
@@ -1129,6 +1179,20 @@ func ruleBTOmit(c *Ctx) {
 			callee := e.byFn[cs.Static]
 			if cs.Static == nil || callee == nil || callee.Omit == nil {
 				continue
+			}
+			// the pointer case built in the dispatcher itself: the element's codec is built by a recursive call on
+			// typ.Elem(), and whether a pointer is written as null is the pointer's own business (nil or not), not
+			// the element's — the pinned helper for pointers passes false there as well
+			if cs.Static == root.Fn && root.TypParam != nil {
+				elemRec := false
+				for _, a := range cs.Common.Args {
+					if call, isCall := a.(*ssa.Call); isCall && call.Call.IsInvoke() && call.Call.Method.Name() == "Elem" && call.Call.Value == ssa.Value(root.TypParam) {
+						elemRec = true
+					}
+				}
+				if elemRec {
+					continue
+				}
 			}
 			for i, prm := range cs.Static.Params {
 				if prm == callee.Omit {
